@@ -18,7 +18,7 @@ CATALOGUE = [
     "C1CC1", "C1CCCCC1", "C1CCC1C", "C1=CCCCC1", "c1ccccc1", "Cc1ccccc1", "c1ccncc1", "c1ccc(cc1)c1ccccc1",
     "c1ccc2ccccc2c1", "Clc1ccccc1Br", "CS(=O)(=O)C", "CP(=O)(O)O", "FC(F)(F)C", "OCC(O)CO", "CC(C)(C)CO",
     "C1CC2CCC1C2", "O=C1CCCC1", "CSc1ccccc1", "NC(=O)c1ccccc1", "C1COCCN1", "CC=CC", "N#CC#N", "ClCCBr",
-    "OC(=O)CC(=O)O", "COP(=O)OC", "CS(O)C", "CP(C)(C)C", "CSc1ccccc1C", "c1ccccc1SC", "Cc1ccc(SC)cc1", "ClCSc1ccncc1", "c1cc(C)cc(C)c1", "C1CCC2(CC1)CCCC2", "CCS", "CSSC", "[O-]C(=O)CC[NH3+]",
+    "OC(=O)CC(=O)O", "COP(=O)OC", "CS(O)C", "CP(C)(C)C", "CSc1ccccc1C", "c1ccccc1Sc1ccccc1", "c1ccccc1SC", "Cc1ccc(SC)cc1", "ClCSc1ccncc1", "c1cc(C)cc(C)c1", "C1CCC2(CC1)CCCC2", "CCS", "CSSC", "[O-]C(=O)CC[NH3+]",
 ]
 
 ORGANIC = {"B", "C", "N", "O", "P", "S", "F", "Cl", "Br", "I"}
